@@ -98,6 +98,8 @@ def history(rng, mode=None, cfg=None, state=None, nops=None, family="mixed"):
                     f["deleteWith"] = [rng.choice(FACT_IDS + RULE_IDS)]
                 if rng.random() < 0.2:
                     f = {"rule": sched_rule(rng, locs, simple=True), "k": 1}   # a scheduled rule through AddFact
+                    if rng.random() < 0.3:
+                        f["rule"]["schedule"] = 5      # the add hook refuses it (getSchedule): nothing of this add may stay
                 ids = FACT_IDS + (RULE_IDS if rng.random() < 0.5 else [])
                 op = {"op": "addFact", "loc": loc, "id": rng.choice(ids), "fact": f}
                 if expiry and rng.random() < 0.3:
